@@ -126,20 +126,22 @@ def buildable_facets(ctx: Ctx, rs: RuleSet, rule: str, only=None):
 
 
 def dispatch_ends_in_raise(f) -> Tuple[bool, List[str]]:
-  """The outermost if/elif chain over isinstance(...) ends with else: raise."""
-  kinds = []
-  for st in f.node.body:
-    if isinstance(st, ast.If) and isinstance_names(st.test):
-      chain = st
-      while True:
-        kinds += sorted(isinstance_names(chain.test))
-        if len(chain.orelse) == 1 and isinstance(chain.orelse[0], ast.If):
-          chain = chain.orelse[0]
-          continue
-        break
-      ok = bool(chain.orelse) and isinstance(chain.orelse[-1], ast.Raise)
-      return ok, kinds
-  return False, kinds
+  """A dispatch over isinstance(<subject>, ...) raises for a subject that is
+
+  an instance of none of the tested classes - decided on the CFG, so guard
+  clauses, negated tests and swapped arms are all the same to it.
+  """
+  import collections
+  from fdlstatic import dispatch
+  subjects = collections.Counter(
+      unparse(c.args[0]) for c in ast.walk(f.node) if isinstance(c, ast.Call)
+      and unparse(c.func) == 'isinstance' and len(c.args) == 2)
+  if not subjects:
+    return False, []
+  subject = subjects.most_common(1)[0][0]
+  g = cfg_lib.CFG(f.node.body, f.qualname)
+  kinds = dispatch.tested_classes(f.node, subject)
+  return dispatch.default_raises(g, subject), kinds
 
 
 def run(ctx: Ctx, rs: RuleSet, tier: str):
